@@ -1,0 +1,36 @@
+//go:build verif
+
+package s2
+
+// Read-only accessors for the model-based verification of the bounding
+// objects (property C10), build tag verif only.
+
+// VerifC10LoopBounds returns the loop's bound and the bound grown for sub-regions.
+func VerifC10LoopBounds(l *Loop) (bound, subregionBound Rect) { return l.bound, l.subregionBound }
+
+// VerifC10PolygonBounds returns the polygon's bound and the bound grown for sub-regions.
+func VerifC10PolygonBounds(p *Polygon) (bound, subregionBound Rect) {
+	return p.bound, p.subregionBound
+}
+
+// VerifC10LoopCrossingContains is the loop's own point-containment decision
+// (crossing parity from the origin) without the preliminary bounds rejection
+// that Loop.ContainsPoint applies while the index is not built.
+func VerifC10LoopCrossingContains(l *Loop, p Point) bool { return l.bruteForceContainsPoint(p) }
+
+// VerifC10PolygonCrossingContains is the polygon's own point-containment decision
+// (parity of the loops' crossing tests) without the preliminary bounds rejection.
+func VerifC10PolygonCrossingContains(p *Polygon, pt Point) bool {
+	inside := false
+	for _, l := range p.loops {
+		inside = inside != l.bruteForceContainsPoint(pt)
+	}
+	return inside
+}
+
+// VerifC10DblEpsilon is the rounding unit used in the documented error constants.
+func VerifC10DblEpsilon() float64 { return dblEpsilon }
+
+// VerifC10CapChord is the cap's radius as stored (squared chord length); Cap.ContainsPoint
+// compares it with ChordAngleBetweenPoints(centre, p).
+func VerifC10CapChord(c Cap) float64 { return float64(c.radius) }
